@@ -15,7 +15,7 @@ MODULES = ["Ahbicht.Properties.C03", "Ahbicht.Properties.C04"]
 
 
 def run(ctx: Ctx) -> None:
-    ctx.rule = ("every binary tree with up to 3/4 leaves over {rc 1, rc 2, hint 501, fc 901} (exhaustive) plus random well-formed (valid-biased) and "
+    ctx.rule = ("every binary tree with up to 3/4 leaves over {rc 1, rc 2, hint 900, fc 901} (exhaustive) plus random well-formed (valid-biased) and "
                 "arbitrary trees with up to 7/10 leaves; all 3^k assignments (k<=4/5, sampled beyond); distinct = (tree, assignment); "
                 "non-trivial = tree has an operator")
     ctx.coverage["generated_changed"] = extract.regenerate(["Cfv"])
